@@ -228,11 +228,22 @@ pub fn model(top: bool, nodes: &[Node], r: &Req) -> Option<(BTreeMap<u8, Vec<u8>
 }
 
 const ADDRS: &str = "addresses: [192.0.2.0/24, 198.51.100.0/24]\n";
+/// Other ways of writing the same top-level address list: IPv6 prefixes in front of / between the
+/// IPv4 ones, and the IPv4 ones swapped.  The meaning for DHCP is the same.
+const ADDRS_VARIANTS: [&str; 4] = [
+    ADDRS,
+    "addresses: ['2001:db8:1::/64', 192.0.2.0/24, 198.51.100.0/24]\n",
+    "addresses: [198.51.100.0/24, '2001:db8:1::/64', '2001:db8:2::/64', 192.0.2.0/24]\n",
+    "addresses: [198.51.100.0/24, 192.0.2.0/24]\n",
+];
+thread_local! {
+    static ADDRS_VARIANT: std::cell::Cell<usize> = const { std::cell::Cell::new(0) };
+}
 const TOP: &str = "dns-servers: [$self4, 192.0.2.53, '2001:db8::53']\ndns-search: [top.example, sub.org]\ncaptive-portal: 'https://top.example/'\n";
 
 fn config_yaml(top: bool, nodes: &[Node]) -> String {
     let mut s = String::from("---\n");
-    s.push_str(ADDRS);
+    s.push_str(ADDRS_VARIANTS[ADDRS_VARIANT.with(|v| v.get())]);
     if top {
         s.push_str(TOP);
     }
@@ -469,13 +480,17 @@ pub fn run(tier: &str, replay: Option<Value>) -> ! {
                 }
             }
         }
-        for (top, nodes, reqs) in override_configs() {
-            if config_yaml(top, &nodes) == y {
-                found = true;
-                let (_, _, vs) = judge_config(top, &nodes, &reqs, "override");
-                rep.violations_from(vs);
+        for variant in 0..ADDRS_VARIANTS.len() {
+            ADDRS_VARIANT.with(|v| v.set(variant));
+            for (top, nodes, reqs) in override_configs() {
+                if config_yaml(top, &nodes) == y {
+                    found = true;
+                    let (_, _, vs) = judge_config(top, &nodes, &reqs, "override");
+                    rep.violations_from(vs);
+                }
             }
         }
+        ADDRS_VARIANT.with(|v| v.set(0));
         if !found {
             rep.machinery_error("replay configuration not found in the grammar");
         }
@@ -505,7 +520,22 @@ pub fn run(tier: &str, replay: Option<Value>) -> ! {
         })
         .collect();
     let ov = override_configs();
-    let outs2: Vec<(u64, std::collections::BTreeSet<String>, Vec<Violation>)> = ov.par_iter().map(|(top, nodes, reqs)| judge_config(*top, nodes, reqs, "override")).collect();
+    let mut outs2: Vec<(u64, std::collections::BTreeSet<String>, Vec<Violation>)> = ov.par_iter().map(|(top, nodes, reqs)| judge_config(*top, nodes, reqs, "override")).collect();
+    // the same override configurations (every 7th) under the other spellings of the address list
+    for variant in 1..ADDRS_VARIANTS.len() {
+        let more: Vec<(u64, std::collections::BTreeSet<String>, Vec<Violation>)> = ov
+            .par_iter()
+            .enumerate()
+            .filter(|(i, _)| thorough || i % 7 == 0)
+            .map(|(_, (top, nodes, reqs))| {
+                ADDRS_VARIANT.with(|v| v.set(variant));
+                let r = judge_config(*top, nodes, reqs, "override");
+                ADDRS_VARIANT.with(|v| v.set(0));
+                r
+            })
+            .collect();
+        outs2.extend(more);
+    }
     let mut n = 0;
     let mut classes = std::collections::BTreeSet::new();
     let mut seen = std::collections::BTreeSet::new();
@@ -521,7 +551,7 @@ pub fn run(tier: &str, replay: Option<Value>) -> ! {
     crate::common::clock::unset();
     rep.cov("evaluations", n);
     rep.cov("distinct_nontrivial", (trees.len() + ov.len()) as u64);
-    rep.cov("rule", "structure sweep: match alphabet {none, subnet S1, subnet S2, hardware address M1, host-name h, host-name null, S1 and M1}; all policy trees of depth <=2 and width <=2 (quick: second top-level sibling with <=1 child), all depth-3 chains, all width-3 sibling lists (top level and under a condition-less parent); each node sets a marker option per depth so the reply shows which node applied; requests: 3 receiving addresses x 2 hardware addresses x host-name {absent,h,x} (DISCOVER and REQUEST). override sweep: chains of depth 1-3 x apply alphabet {none, dns-servers [v], dns-servers [$self4, v], dns-servers null, domain-name, mtu, netmask null} per level x top-level defaults {absent, present} x interface mtu/router x 4 parameter lists. distinct_nontrivial = distinct configurations; evaluations = requests judged against the model");
+    rep.cov("rule", "structure sweep: match alphabet {none, subnet S1, subnet S2, hardware address M1, host-name h, host-name null, S1 and M1}; all policy trees of depth <=2 and width <=2 (quick: second top-level sibling with <=1 child), all depth-3 chains, all width-3 sibling lists (top level and under a condition-less parent); each node sets a marker option per depth so the reply shows which node applied; requests: 3 receiving addresses x 2 hardware addresses x host-name {absent,h,x} (DISCOVER and REQUEST). override sweep: chains of depth 1-3 x apply alphabet {none, dns-servers [v], dns-servers [$self4, v], dns-servers null, domain-name, mtu, netmask null} per level x top-level defaults {absent, present} x interface mtu/router x 4 parameter lists; every 7th of them (thorough: all) again under three other spellings of the top-level address list (IPv6 prefixes in front of / between the IPv4 ones, IPv4 ones swapped). distinct_nontrivial = distinct configurations; evaluations = requests judged against the model");
     rep.cov("exhaustive", true);
     rep.cov("parts", json!({"structure_configs": trees.len(), "override_configs": ov.len()}));
     rep.cov("outcome_classes", json!(classes));
